@@ -360,15 +360,14 @@ fn render(batches: &[RecordBatch]) -> Vec<String> {
 }
 
 fn pruned(plan: &Arc<dyn datafusion::physical_plan::ExecutionPlan>) -> u64 {
+    use datafusion::physical_plan::metrics::MetricValue;
     let mut n = 0u64;
     if let Some(m) = plan.metrics() {
-        for name in ["pushdown_rows_pruned", "row_groups_pruned_statistics", "files_ranges_pruned_statistics", "page_index_rows_pruned"] {
-            // pruning metrics carry (pruned, matched) pairs or plain counts depending on the metric; the
-            // rendered text is the stable interface
-            for x in m.iter().filter(|x| x.value().name() == name) {
-                let t = x.value().to_string();
-                let first = t.split(|c: char| !c.is_ascii_digit()).find(|p| !p.is_empty()).and_then(|p| p.parse::<u64>().ok()).unwrap_or(0);
-                n += first;
+        for x in m.iter() {
+            match x.value() {
+                MetricValue::PruningMetrics { pruning_metrics, .. } => n += pruning_metrics.pruned() as u64,
+                MetricValue::Count { name, count } if name.contains("pruned") => n += count.value() as u64,
+                _ => {}
             }
         }
     }
